@@ -353,7 +353,8 @@ func c06bBody(env *simrt.Env) {
 				err = w.sc.WriteComment(&txt, &ok)
 			}
 			w.inflight--
-			env.Op("client %d: %s -> %v", id, r.desc, err)
+			// (the sandbox path differs from process to process: keep it out of the run's identity)
+			env.Op("client %d: %s -> %s", id, r.desc, strings.ReplaceAll(fmt.Sprint(err), env.Dir, "<sandbox>"))
 			if err != nil {
 				simrt.Hit("request-rejected")
 			}
@@ -467,7 +468,7 @@ func c06bBody(env *simrt.Env) {
 		cfg := &WriteControlConfig{Request: "STOP"}
 		w.owner[cfg] = 0
 		err := w.sc.WriteControl(cfg, &ok)
-		env.Op("final STOP -> %v", err)
+		env.Op("final STOP -> %s", strings.ReplaceAll(fmt.Sprint(err), env.Dir, "<sandbox>"))
 		quiesce("after the final STOP")
 		if err != nil || told().Active {
 			simrt.Fail("C06.stop-state", "wc2:stop-refused-while-active", "a single client's STOP while the reported state was active returned %v and left the reported state %s", err, c06bStr(told()))
